@@ -82,6 +82,11 @@ def job_config(job):
     name = job["config"]
     key = (name, job.get("cseed"))
     tables = _W["tables"]
+    if name == "exceptions":
+        # string-list options drawn from the identifiers of this very input
+        style, dicts = gen_inputs.named_config(name, tables, random.Random("cfg/%s/%s/%s" % (name, job.get("cseed"), common.rel(job.get("path", "")))), text=job_text(job))
+        cla, oc = vsgrun.make_config(style=style, conf_dicts=dicts)
+        return cla, oc, style, dicts
     if key not in _W["configs"] or name.startswith("random"):
         style, dicts = gen_inputs.named_config(name, tables, random.Random("cfg/%s/%s" % (name, job.get("cseed"))))
         cla, oc = vsgrun.make_config(style=style, conf_dicts=dicts)
@@ -424,12 +429,12 @@ def make_jobs(tier, features=("trace",), limit=None):
     for i in range(n_var):
         p = sample[i % len(sample)]
         jobs.append({"path": p, "variant": gen_inputs.VARIANTS[(i // len(sample) + i) % len(gen_inputs.VARIANTS)], "vseed": sv(i) * 1000 + i, "config": "default", "features": feats})
-    cfgs = ["jcl", "upper", "all_enabled", "random", "optional_remove", "random_jcl", "random"]
+    cfgs = ["jcl", "upper", "all_enabled", "random", "optional_remove", "random_jcl", "random", "exceptions"]
     for i in range(n_cfg):
         p = sample[(i * 7 + 3) % len(sample)]
         c = cfgs[i % len(cfgs)]
         j = {"path": p, "variant": ("orig", "messy", "glue")[i % 3], "vseed": sv(i) * 1000 + i, "config": c, "features": feats}
-        if c.startswith("random"):
+        if c.startswith("random") or c == "exceptions":
             j["cseed"] = sv(i) * 1000 + (i % 40)
             if i % 4 == 0:
                 j["fix_only_all"] = True
